@@ -250,6 +250,9 @@ CHECKS["C12"] = {
         {"name": "transactions", "pkg": "cliworld", "run": "^TestC12$",
          "quick": {"shards": 4, "checks": 4000, "timeout_s": 400},
          "thorough": {"shards": 16, "checks": 40000, "timeout_s": 2400}},
+        {"name": "coincidences", "pkg": "cliworld", "run": "^TestC12Ties$",
+         "quick": {"shards": 4, "checks": 1500, "timeout_s": 400},
+         "thorough": {"shards": 16, "checks": 20000, "timeout_s": 2400}},
     ],
 }
 
